@@ -13,3 +13,4 @@ pub mod r7;
 pub mod r8f;
 pub mod r8p;
 pub mod r5r;
+pub mod r5z;
